@@ -135,7 +135,7 @@ def _gen_exhaustive(ck):
                 yield {"kind": f"smp-{m}d-s{s}-k{kmax}", "ref": ref, "pts": pts, "exact": True}
 
 
-_KINDS = ["lattice", "dyadic", "dups", "collinear", "boundary", "front", "zero-ref", "cluster", "cluster", "float", "float"]
+_KINDS = ["lattice", "dyadic", "dups", "collinear", "boundary", "front", "zero-ref", "tiny-ref", "cluster", "cluster", "float", "float"]
 
 
 def _gen_random_one(rng, nmax, mmax, kind=None):
@@ -213,6 +213,14 @@ def _gen_random_one(rng, nmax, mmax, kind=None):
             if rng.random() < 0.3:
                 b[rng.randrange(m)] = rng.randint(0, R)
             pts.append([float(v) for v in b])
+    elif kind == "tiny-ref":
+        # small-magnitude problems: reference components exactly zero, tiny positive or tiny negative
+        # (all multiples of a power of two, so the arithmetic stays exact)
+        u = 2.0 ** rng.choice([-30, -33, -40, -60, -100])
+        ref = [rng.choice([0.0, 0.0, 1.0, 2.0, 3.0, -1.0, -2.0]) * u for _ in range(m)]
+        if rng.random() < 0.3:
+            ref[rng.randrange(m)] = float(rng.randint(1, 4)) * u
+        pts = [[ref[i] - rng.randint(0, 6) * u for i in range(m)] for _ in range(n)]
     elif kind == "zero-ref":
         # `if any(referencePoint)` is False: no shift; some coordinates of ref zero, others not
         den = rng.choice([1, 2, 4])
@@ -243,12 +251,23 @@ def _variants(rng, case):
         vp = pts + extra
         rng.shuffle(vp)
         out.append({"variant": "dup", "pts": vp})
+    # the same problem scaled by an exact power of two: hv scales by s^m (exact while nothing under/overflows)
+    if case["exact"]:
+        big = max([abs(v) for p in pts for v in p] + [abs(r) for r in ref] + [1e-300])
+        for e in (-40, -100, 100):
+            if 2.0 ** (-900 / max(m, 1)) < big * 2.0 ** e < 2.0 ** (900 / max(m, 1)):
+                sc = 2.0 ** e
+                out.append({"variant": f"scale2^{e}", "pts": [[v * sc for v in p] for p in pts],
+                            "ref": [r * sc for r in ref], "scale_exp": e})
     # add a point: below the reference, anywhere in (or slightly below) the cloud
-    lo = [min([p[i] for p in pts] + [ref[i] - 1.0]) for i in range(m)]
+    # extent of the cloud below the reference, in the problem's own scale (tiny / huge problems stay exact)
+    spans = [ref[i] - min([p[i] for p in pts] + [ref[i]]) for i in range(m)]
+    D = max(spans + [0.0]) or max([abs(r) for r in ref] + [0.0]) or 1.0
+    lo = [ref[i] - max(spans[i], D) for i in range(m)]
     if case["exact"]:
         q = []
         for i in range(m):
-            cands = sorted({p[i] for p in pts} | {ref[i], lo[i], (lo[i] + ref[i]) / 2, lo[i] - 0.5})
+            cands = sorted({p[i] for p in pts} | {ref[i], lo[i], ref[i] - (ref[i] - lo[i]) / 2, lo[i] - D / 2})
             q.append(rng.choice(cands))
     else:
         q = [ref[i] - rng.random() * (ref[i] - lo[i]) for i in range(m)]
@@ -337,6 +356,7 @@ class _Runner:
                 "dup-invariant": "value changes when points are duplicated",
                 "monotone": "value decreases when a point is added",
                 "boundary-zero": "a point on the reference boundary changes the value",
+                "scale-invariant": "hv(s*P, s*ref) differs from s^m * hv(P, ref) for a power of two s",
                 "mutates-input": "the caller's array (or reference) was modified",
                 "raises": "hypervolume raised on an input inside the property's quantifier"}.get(clause, clause)
         self.ck.fail(fp, f"{site}: {what} ({_branch(m)})", case, detail)
@@ -426,6 +446,9 @@ class _Runner:
         if not with_variants:
             return
         for v in _variants(ck.rng, case):
+            if "scale_exp" in v:
+                self._scaled(case, v, h)
+                continue
             vc = {**case, "pts": v["pts"], "variant": v["variant"], "base_pts": pts}
             if "q" in v:
                 vc["q"] = v["q"]
@@ -451,6 +474,30 @@ class _Runner:
                 o2 = self.spy.orders[-1] if self.spy.orders else None
                 self.reqs.append(_req(v["pts"], ref, ["fast"] + (["code"] if o2 is not None else []), o2))
                 self.metas.append(("add", vc, hv_, None))
+
+    def _scaled(self, case, v, h):
+        """scale-invariance on the real code: hv(s*P, s*ref) == s^m * hv(P, ref), exactly for s = 2^e;
+        the scaled problem is itself a case inside the quantifier and is also sent to Lean"""
+        ck = self.ck
+        m = len(case["ref"])
+        sc_case = {"kind": case["kind"] + "*" + v["variant"], "ref": v["ref"], "pts": v["pts"], "exact": True,
+                   "variant": v["variant"], "base_pts": case["pts"], "base_ref": case["ref"], "scale_exp": v["scale_exp"]}
+        self.spy.orders.clear()
+        hs, mut = _call(self.hypervolume, v["pts"], v["ref"])
+        order = self.spy.orders[-1] if self.spy.orders else None
+        ck.count("variant:scale")
+        ck.case({"kind": sc_case["kind"], "ref": v["ref"], "pts": v["pts"]}, nontrivial=m >= 2 and len(v["pts"]) >= 2)
+        if isinstance(hs, Exception):
+            self.fail("raises", "hypervolume", sc_case, repr(hs), "|" + type(hs).__name__)
+            return
+        if mut:
+            self.fail("mutates-input", "hypervolume", sc_case, None)
+        expect = Fraction(h) * Fraction(2) ** (v["scale_exp"] * m)
+        if Fraction(hs) != expect:
+            self.fail("scale-invariant", "hypervolume", sc_case,
+                      {"base": h, "scaled": hs, "expected_scaled": float(expect), "scale": f"2^{v['scale_exp']}"})
+        self.reqs.append(_req(v["pts"], v["ref"], ["fast"] + (["code"] if order is not None else []), order))
+        self.metas.append(("scaled", sc_case, hs, None))
 
     def recorder(self, objs_seq, kind):
         """ObjectiveRecorder: hypervolume(-objectives, max(-objectives)) after every job"""
@@ -546,8 +593,9 @@ class _Runner:
             site = "ObjectiveRecorder" if tag == "recorder" else "hypervolume"
             ok_spec = (Fraction(h) == spec) if exact else _close(h, spec, ref, pts)
             if not ok_spec:
-                self.nexact = getattr(self, "nexact", 0) + 1
-                if self.nexact > 40:
+                self.nexact = getattr(self, "nexact", {})
+                self.nexact[site] = self.nexact.get(site, 0) + 1
+                if self.nexact[site] > 40:
                     # plenty of replays already; do not spend the budget shrinking/classifying more
                     ck.count("exact-failures-beyond-40-not-classified")
                 elif tag == "recorder":
@@ -569,9 +617,10 @@ class _Runner:
 def run(ck):
     ck.rule = ("all sets of <=k points on {0..s}^m with reference (s,..,s) for the (m,s,k) plan of the tier (random row order) "
                "+ uniform samples of sets of <=4 points on {0..4}^m, m<=5 + generated sets up to 60x5 "
-               "(lattice/dyadic/duplicates/collinear/boundary/constant-sum fronts/zero reference/non-dyadic floats) each with "
-               "permuted, duplicated, add-a-point and add-a-boundary-point variants and C/Fortran/strided-view layouts "
-               "+ ObjectiveRecorder job streams; distinct by canonical (ref, point list); non-trivial = >=2 objectives and "
+               "(lattice/dyadic/duplicates/collinear/boundary/constant-sum fronts/zero reference/tiny reference with zero, tiny positive "
+               "and tiny negative components/non-dyadic floats) each with permuted, duplicated, add-a-point, add-a-boundary-point and "
+               "power-of-two scaled (2^-40, 2^-100, 2^100) variants and C/Fortran/strided-view layouts "
+               "+ ObjectiveRecorder / LoggerCallback / SearchEarlyStopping job streams (ordinary, tiny and huge magnitudes); distinct by canonical (ref, point list); non-trivial = >=2 objectives and "
                ">=2 mutually non-dominated points")
     ck.assumptions = [
         "every point is <= the reference in every coordinate (the property's quantifier; other inputs are documented as unsupported)",
@@ -627,6 +676,8 @@ def run(ck):
             m = ck.rng.randint(2, 4)
             length = ck.rng.randint(1, 12)
             ints = ck.rng.random() < 0.3
+            # objective magnitudes: ordinary, or all of order 1e-9 and smaller / very large (exact powers of two)
+            unit = 1.0 if (ints or ck.rng.random() < 0.5) else 2.0 ** ck.rng.choice([-30, -33, -40, -100, 100])
             seq = []
             for _ in range(length):
                 if ck.rng.random() < 0.15:
@@ -634,8 +685,8 @@ def run(ck):
                 elif ints:
                     seq.append(tuple(ck.rng.randint(-4, 4) for _ in range(m)))
                 else:
-                    seq.append(tuple(ck.rng.randint(-32, 32) / 8 for _ in range(m)))
-            R.recorder(seq, "recorder-int" if ints else "recorder")
+                    seq.append(tuple(ck.rng.randint(-32, 32) / 8 * unit for _ in range(m)))
+            R.recorder(seq, "recorder-int" if ints else ("recorder" if unit == 1.0 else "recorder-scaled"))
         R.judge(nproc)
     finally:
         pf.np = real_np
@@ -655,6 +706,16 @@ def replay(ck, case):
             c = dict(case)
             c.setdefault("kind", "replay")
             c.setdefault("exact", all(float(v).is_integer() or (float(v) * 1024).is_integer() for p in c["pts"] + [c["ref"]] for v in p))
+            if "scale_exp" in c:
+                # a scaled variant: the clause itself, then the scaled problem as an ordinary case
+                hb, _ = _call(R.hypervolume, c["base_pts"], c["base_ref"])
+                hs, _ = _call(R.hypervolume, c["pts"], c["ref"])
+                print("replay scale variant: base =", hb, "scaled =", hs, "scale = 2^%d" % c["scale_exp"])
+                if isinstance(hs, Exception) or isinstance(hb, Exception):
+                    R.fail("raises", "hypervolume", c, repr(hs))
+                elif Fraction(hs) != Fraction(hb) * Fraction(2) ** (c["scale_exp"] * len(c["ref"])):
+                    R.fail("scale-invariant", "hypervolume", c, {"base": hb, "scaled": hs})
+                c = {k: v for k, v in c.items() if k not in ("base_pts", "base_ref", "scale_exp", "variant")}
             if "base_pts" in c:
                 # a variant failure: run the base with fresh variants and the stored variant itself
                 base = {**c, "pts": c["base_pts"]}
